@@ -662,3 +662,7 @@ mod tests {
         assert_eq!(ctr.persist_value(), 5210);
     }
 }
+
+#[cfg(any(kani, verif_replay))]
+#[path = "/verif/kani/checkin.rs"]
+pub(crate) mod verif_kani_checkin;
